@@ -120,6 +120,13 @@ def gen_case(rng, cfg, idx):
     return None
 
 
+def graph_refs(st):
+    """Names that enter the operation as (potentially differentiable) operands: the condition of `where` is an option, not an operand."""
+    if st.get("k") == "call" and st.get("fn") == "where" and len(st.get("a", [])) == 3:
+        st = dict(st, a=st["a"][1:])
+    return mgrun.stmt_refs(st)
+
+
 def model_flags(prog, it_types, raised):
     """Reference model of the constant flag of every tensor-valued name. it_types: name -> ('tensor'|'array'|'other', dtype kind)."""
     flags, must_raise = {}, {}
@@ -139,7 +146,9 @@ def model_flags(prog, it_types, raised):
             if st["how"] != "data":
                 flags[st["out"]] = True
         elif st["k"] == "call":
-            refs = mgrun.stmt_refs(st)
+            refs = graph_refs(st)
+            if any(r not in it_types for r in mgrun.stmt_refs(st)):
+                continue
             if any(r not in it_types for r in refs):
                 continue  # depends on a statement that raised
             ins = [flags.get(r, True) for r in refs if it_types[r][0] == "tensor"]
@@ -268,7 +277,7 @@ def run_case(case):
         reach = {st["tgt"] for st in prog if st["k"] == "backward" and flags.get(st["tgt"]) is False}
         for st in reversed(prog):
             if st["k"] == "call" and st.get("out") in reach:
-                for r in mgrun.stmt_refs(st):
+                for r in graph_refs(st):
                     if flags.get(r) is False and types.get(r, ("", ""))[0] == "tensor":
                         reach.add(r)
         bw_first = min((i for i, st in enumerate(prog) if st["k"] == "backward"), default=len(prog))
